@@ -12,12 +12,18 @@ recognising one spelling of them:
                        or inside a private helper that is handed `&mut acc`) are put into the same functional form
                        (PSlicer.env_steps) — refused when anything reads the accumulator before a later update; apply
                        calling itself for another literal scope (`self.apply(Scope::All, env)`) contributes that scope's
-                       list.  A list that cannot be read off is UNPROVEN, a different list VIOLATED
+                       list.  An operand that is a delta without entries kept as a null object (`LayerEnvDelta::new()` in
+                       a local nothing is inserted into) contributes no delta — applying it is the identity by R5 / R6 —
+                       and `map.get(p).unwrap_or(&empty)` is the delta under p when present (ScopeEval.labels).
+                       A list that cannot be read off is UNPROVEN, a different list VIOLATED
   R2 behaviour order   cmp, with its private rank helper made transparent, is rank(self).cmp(rank(other)) for one
                        constant table (or the discriminants), and the ranks sort the variants in the lexicographic
                        order of their file suffixes (the lifecycle applies files by name); the suffixes are read off
                        the file name of the writer's WRITE effect — also when the name is an element of a list of
-                       planned files computed first (C04_helpers.planned_suffix_table)
+                       planned files computed first (C04_helpers.planned_suffix_table), and when behaviour -> suffix is a
+                       lookup in a literal table of (behaviour, suffix) rows instead of a match
+                       (C04_helpers.table_lookup_select: distinct literal keys, derived equality, total when a fallback
+                       is ignored; constant text between name and suffix counts as part of the suffix)
   R3 frame             apply takes &self and &Env and returns an owned Env; no interior mutability in
                        Env / LayerEnv / LayerEnvDelta
   R4 ordered entries   entries live in a BTreeMap keyed by (behaviour, name); insert is the only writer
@@ -33,7 +39,10 @@ recognising one spelling of them:
                        starts as the (clone of the) input env, and is what is returned.  Decided on where a reference
                        comes from (MIR local / parameter / captured variable), because the value slicer sees through
                        clone(): `env.get(name)` and `result_env.get(name)` are equal values but different objects once
-                       an earlier entry of the same delta has been applied
+                       an earlier entry of the same delta has been applied.  A copy of the input env returned on a path
+                       taken only when the delta has no entries (`if self.entries.is_empty() { return env.clone() }`)
+                       is the environment the zero entries were applied to.  When the per-entry loop itself was not
+                       understood (R5 says why), a second environment is reported UNPROVEN, not VIOLATED
   R7 env model         the model R5 evaluates the rules over is what libcnb/src/env.rs implements: Env::get is the
                        plain lookup (None iff unset), Env::contains_key is presence (an empty string is set),
                        Env::insert stores the value under the key on every path, Clone is a faithful copy
@@ -56,6 +65,14 @@ provided the stages do not consult the environment (they run before the entries 
 tested values that merge several arms are re-sliced under the case (Spec.edge_state); a variable may be updated in
 place through `&mut` its stored string (map.entry(k).or_default() / or_insert_with, pushes, mem::take) — what the
 string holds when the entry has been applied is what an insert would have stored (ArmCase.slot).
+Staged application (C04_helpers.Overlay): the entry loop may write no environment at all but stage the new values in a
+name -> string map of its own that starts empty, is only read with get / contains_key and changed with insert, and is
+written out — every (key, value), unconditionally, behind the entry loop and before every return — into the copy of the
+input env that is returned.  The environment built so far is then the input env overlaid with that map: every set case
+is evaluated twice (the variable's value is staged / is in the input env: ArmCase.where), a lookup in the staging map and
+a lookup in the input env are decided separately (a staged variable's value in the input env is stale = unknown), so
+`staged.get(k).or_else(|| env.get(k))`, `.or(..)`, a match / if-let chain and `contains_key` on both layers are the
+same lookup, and a rule that consults one layer only is a shape violation.
 Not decided: the resulting byte strings for all value combinations (value level).
 """
 from . import layer_env_common as L
